@@ -6,7 +6,7 @@ package main
 // source order into a list of tokens:
 //
 //	"if <cond> {"  "} else {"  "}"  "for {"  "range <x> {"  "select {"  "switch <tag> {"
-//	"case <comm or exprs>:"  "default:"  "call <callee>"  "set <lhs>=<rhs>"  "inc <x>"
+//	"case <comm or exprs>:"  "default:"  "call <callee>"  "set <lhs>=<rhs>"  "set <lhs>+="  "inc <x>"
 //	"var <name>"  "defer <callee>"  "go <callee>"  "return"  "goto <l>"  "continue"  "break"
 //	"label <l>:"
 //
@@ -127,7 +127,12 @@ func (s *shaper) stmt(st ast.Stmt) {
 		for _, r := range x.Rhs {
 			s.calls(r)
 		}
-		if len(x.Lhs) == len(x.Rhs) {
+		if x.Tok != token.ASSIGN && x.Tok != token.DEFINE {
+			// += and friends: an accumulation whose place in the order matters
+			for i := range x.Lhs {
+				s.emit("set " + exprText(s.fset, x.Lhs[i]) + x.Tok.String())
+			}
+		} else if len(x.Lhs) == len(x.Rhs) {
 			for i := range x.Lhs {
 				if simpleRHS(x.Rhs[i]) {
 					s.emit("set " + exprText(s.fset, x.Lhs[i]) + "=" + exprText(s.fset, x.Rhs[i]))
